@@ -741,6 +741,7 @@ class PDFDocument:
         self._parser = None
         self._cached_objs: Dict[int, Tuple[object, int]] = {}
         self._parsed_objs: Dict[int, Tuple[List[object], int]] = {}
+        self._loading_objids: Set[int] = set()
         self._parser = parser
         self._parser.set_document(self)
         self.is_printable = self.is_modifiable = self.is_extractable = True
@@ -880,31 +881,43 @@ class PDFDocument:
         if objid in self._cached_objs:
             (obj, genno) = self._cached_objs[objid]
         else:
-            for xref in self.xrefs:
-                try:
-                    (strmid, index, genno) = xref.get_pos(objid)
-                except KeyError:
-                    continue
-                try:
-                    if strmid is not None:
-                        stream = stream_value(self.getobj(strmid))
-                        obj = self._getobj_objstm(stream, index, objid)
-                    else:
-                        obj = self._getobj_parse(index, objid)
-                        if self.decipher:
-                            obj = decipher_all(self.decipher, objid, genno, obj)
-
-                    if isinstance(obj, PDFStream):
-                        obj.set_objid(objid, genno)
-                    break
-                except (PSEOF, PDFSyntaxError):
-                    continue
-            else:
+            if objid in self._loading_objids:
+                # The object is needed to read the object itself, e.g. a
+                # stream whose /Length is a reference to the stream.
+                log.warning("Object %r depends on itself", objid)
                 raise PDFObjectNotFound(objid)
+            self._loading_objids.add(objid)
+            try:
+                (obj, genno) = self._load_obj(objid)
+            finally:
+                self._loading_objids.discard(objid)
             log.debug("register: objid=%r: %r", objid, obj)
             if self.caching:
                 self._cached_objs[objid] = (obj, genno)
         return obj
+
+    def _load_obj(self, objid: int) -> Tuple[object, int]:
+        """Read an object from the first cross-reference section that has it"""
+        for xref in self.xrefs:
+            try:
+                (strmid, index, genno) = xref.get_pos(objid)
+            except KeyError:
+                continue
+            try:
+                if strmid is not None:
+                    stream = stream_value(self.getobj(strmid))
+                    obj = self._getobj_objstm(stream, index, objid)
+                else:
+                    obj = self._getobj_parse(index, objid)
+                    if self.decipher:
+                        obj = decipher_all(self.decipher, objid, genno, obj)
+
+                if isinstance(obj, PDFStream):
+                    obj.set_objid(objid, genno)
+                return (obj, genno)
+            except (PSEOF, PDFSyntaxError):
+                continue
+        raise PDFObjectNotFound(objid)
 
     OutlineType = Tuple[Any, Any, Any, Any, Any]
 
